@@ -15,6 +15,7 @@ construction *and* re-derived by the model's own RFC grammar parser; the two mus
 run is a harness failure, not a violation."""
 import json
 import os
+import shutil
 import socket
 import subprocess
 import time
@@ -523,6 +524,14 @@ def random_worker(bdir, lo, hi, nsess, local_ips):
     res = core.Result()
     b = build.Build("asan", bdir)
     home, rec = new_home(b)
+    try:
+        _random_configs(b, home, rec, lo, hi, nsess, local_ips, res)
+    finally:
+        shutil.rmtree(home, ignore_errors=True)   # pool workers do not run atexit handlers
+    return res
+
+
+def _random_configs(b, home, rec, lo, hi, nsess, local_ips, res):
     for ci in range(lo, hi):
         crng = core.case_rng(PROP, ci, "config")
         cfg = gen_config(crng, local_ips)
@@ -576,25 +585,29 @@ def ex_worker(bdir, which, relay, L, lo, hi, local_ips):
     res = core.Result()
     b = build.Build("asan", bdir)
     home, rec = new_home(b)
-    cfg = ex_config(relay, local_ips)
-    install_config(b, home, cfg)
-    syms = EX_SMALL if which == "small" else EX_FULL
-    k = len(syms)
-    for idx in range(lo, hi):
-        x = idx
-        cmds = []
-        for _ in range(L):
-            sy = syms[x % k]
-            x //= k
-            cmds.append(GenCmd(sy[0], sy[1], b"\r\n", sy[2] if len(sy) > 2 else None))
-        groups = make_groups(None, cmds, "max")
-        if res.counters.get("violations_raw", 0) >= 20 or len(res.inconclusive) >= 5:
-            res.counters.inc("sessions_not_run_after_20_violations", hi - idx)
-            break
-        if run_session(b, home, rec, cfg, cmds, groups, res,
-                       {"part": "exhaustive", "pool": which, "relay": None if relay is None else relay.decode(), "L": L, "index": idx}):
-            res.counters.inc("exhaustive_sequences")
-            res.nontrivial(which, relay, L, idx)
+    try:
+        cfg = ex_config(relay, local_ips)
+        install_config(b, home, cfg)
+        syms = EX_SMALL if which == "small" else EX_FULL
+        k = len(syms)
+        for idx in range(lo, hi):
+            x = idx
+            cmds = []
+            for _ in range(L):
+                sy = syms[x % k]
+                x //= k
+                cmds.append(GenCmd(sy[0], sy[1], b"\r\n", sy[2] if len(sy) > 2 else None))
+            groups = make_groups(None, cmds, "max")
+            if res.counters.get("violations_raw", 0) >= 20 or len(res.inconclusive) >= 5:
+                res.counters.inc("sessions_not_run_after_20_violations", hi - idx)
+                break
+            if run_session(b, home, rec, cfg, cmds, groups, res,
+                           {"part": "exhaustive", "pool": which, "relay": None if relay is None else relay.decode(),
+                            "L": L, "index": idx}):
+                res.counters.inc("exhaustive_sequences")
+                res.nontrivial(which, relay, L, idx)
+    finally:
+        shutil.rmtree(home, ignore_errors=True)   # pool workers do not run atexit handlers
     return res
 
 
